@@ -48,7 +48,13 @@ def roots(t: T, depth: int = 0) -> Set[Tuple[str, str]]:
         return {("param", t.args[0])}
     if o in ("global", "named"):
         return {("global", t.args[0])}
-    if o in ("attr", "sub", "elem", "upd", "mut", "star"):
+    if o in ("sub", "elem"):
+        # an element of a container: shares storage with the container's
+        # owner and — when the container is a *shallow* copy — with the
+        # elements of what it was copied from
+        return roots(t.args[0], depth + 1) | \
+            _shallow_elements(t.args[0], depth + 1)
+    if o in ("attr", "upd", "mut", "star"):
         return roots(t.args[0], depth + 1)
     if o == "ite":
         return roots(t.args[1], depth + 1) | roots(t.args[2], depth + 1)
@@ -77,6 +83,47 @@ def roots(t: T, depth: int = 0) -> Set[Tuple[str, str]]:
             return roots(r, depth + 1) if r is not None else set()
         return set()            # fresh (A2: unknown calls return new storage)
     return set()                # literals, arithmetic, comprehensions: fresh
+
+
+SHALLOW_COPIERS = ("builtins.dict", "builtins.list", "builtins.tuple",
+                   "builtins.set", "copy.copy", "builtins.sorted",
+                   "builtins.reversed")
+
+
+def _shallow_elements(c: T, depth: int = 0) -> Set[Tuple[str, str]]:
+    """owners of the elements held by container value c when c is (a view
+    of) a shallow copy: dict(x), list(x), x.copy(), copy.copy(x)"""
+    if depth > 60 or not isinstance(c, T):
+        return set()
+    o = c.op
+    if o in ("sub", "elem", "named", "star"):
+        return _shallow_elements(c.args[-1] if o == "named" else c.args[0],
+                                 depth + 1)
+    if o == "loopvar":
+        return _shallow_elements(c.args[2], depth + 1)
+    if o == "loopout":
+        return _shallow_elements(c.args[2], depth + 1) | \
+            _shallow_elements(c.args[3], depth + 1)
+    if o in ("upd", "mut"):
+        return _shallow_elements(c.args[0], depth + 1)
+    if o == "ite":
+        return _shallow_elements(c.args[1], depth + 1) | \
+            _shallow_elements(c.args[2], depth + 1)
+    if o == "call":
+        n = tm.callee_name(c) or ""
+        if n in (".items", ".values", ".keys", ".get"):
+            r = tm.method_recv(c)
+            return _shallow_elements(r, depth + 1) if r is not None else set()
+        if n in SHALLOW_COPIERS and c.args[1]:
+            return roots(c.args[1][0], depth + 1) | \
+                _shallow_elements(c.args[1][0], depth + 1)
+        if n == ".copy":
+            r = tm.method_recv(c)
+            # dict.copy / list.copy are shallow (ndarray.copy is a deep
+            # copy of numbers: its elements have no identity to share)
+            return (roots(r, depth + 1) | _shallow_elements(r, depth + 1)) \
+                if r is not None else set()
+    return set()
 
 
 def element_roots(t: T) -> Set[Tuple[str, str]]:
